@@ -76,7 +76,7 @@ def actionOfJson (j : Json) : R Action :=
       let l ← natF j "o"
       let ttl ← match fieldOpt j "ttl" with
         | none => pure none
-        | some v => do pure (some (← nat v))
+        | some v => do pure (some (← int v))
       pure (.open l ttl)
 
 def errName : MethodErr → String
